@@ -67,7 +67,7 @@ LitsOf(T, env, seen) ==
        [] OTHER -> EmpL
 Ctx(A, B, env) ==
   LET a == LitsOf(A, env, {})  b == LitsOf(B, env, {}) IN
-  [nums |-> a.nums \cup b.nums \cup {"7"}, strs |-> a.strs \cup b.strs \cup {"zz"}, keys |-> a.keys \cup b.keys \cup {"zk"},
+  [nums |-> a.nums \cup b.nums \cup {"7"}, strs |-> a.strs \cup b.strs \cup {"zz"}, keys |-> a.keys \cup b.keys \cup {"zk", "zl"},       \* two fresh keys: values under an index signature may differ from key to key
    maxlen |-> (IF a.maxlen > b.maxlen THEN a.maxlen ELSE b.maxlen) + 1]
 
 \* ------------------------------------------------------------------ witnesses
